@@ -64,7 +64,7 @@ RULE = ("TLC steps the indel scanner against the declarative IndelsOf for every 
         "length <=7 (thorough 9) and checks the both-gap invariance on the definition; every such string of length <=6 (8) is run as a 3-sequence "
         "alignment through variants, sam variants and toPairAlign+variants; a 30-base genome with a forward and a reverse gene under 8 feature "
         "layouts (single, joined with a gap, joined with segments that are not multiples of 3, complement(join) and join(complement), nested mature "
-        "peptide, codon_start 2, unnamed GFF CDS, overlapping genes) x 3 reference gappings, each with 164 queries (every single-site change of "
-        "every position to the next base / an incompatible code / a compatible code / N / gap, double changes inside codons, insertions) under "
+        "peptide, codon_start 2, unnamed GFF CDS, overlapping genes) x 3 reference gappings, each with 227 queries (every single-site change of "
+        "every position to each of the three other bases / an incompatible code / a compatible code / N / gap, double changes inside codons, insertions) under "
         "16 option sets (GenBank/GFF, --append-snps, windows, --aggregate thresholds, stdin, threads, reference from file or annotation); "
         "non-trivial = an alignment for which at least one mutation is reported")
